@@ -308,11 +308,15 @@ func (c *fctx) expr(e ast.Expr, en *env, k func(string) string) string {
 			return k(v.name)
 		}
 		if s, ok := c.sentinel20(x, o); ok { // [ext:T20] package-level `var ErrX = errors.New("...")`, never assigned
+			c.sentinelClash15(x) // [ext:T15]
 			return k(s)
 		}
 		t.fail(x, "identifier %s (not a local variable, parameter or constant)", x.Name)
 	case *ast.SelectorExpr:
 		sel := t.info.Selections[x]
+		if s, ok := c.foreign15(x); ok { // [ext:T15] hex.ErrLength: a sentinel of an imported package
+			return k(s)
+		}
 		if sel == nil || sel.Kind() != types.FieldVal {
 			t.fail(x, "selector %s", x.Sel.Name)
 		}
@@ -410,6 +414,7 @@ func (c *fctx) binary(x *ast.BinaryExpr, en *env, k func(string) string) string 
 		})
 	}
 	c.markNil20(x.X, x.Y) // [ext:T20] err == nil
+	c.errCmp15(x)         // [ext:T15] errors built by fmt.Errorf compare with nil / sentinels only
 	c.markNil20(x.Y, x.X)
 	return c.expr(x.X, en, func(a string) string {
 		return c.expr(x.Y, en, func(b string) string {
@@ -627,6 +632,9 @@ func (c *fctx) call(x *ast.CallExpr, en *env, k func([]string) string) string {
 	if s, ok := c.seqCall(x, en, k); ok { // [seq] sync/atomic, runtime.Gosched
 		return s
 	}
+	if s, ok := c.call15(x, en, k); ok { // [ext:T15] fmt.Errorf / errors.New as an error kind; hex.EncodedLen / DecodedLen
+		return s
+	}
 	fn, recv := t.calleeOf(x)
 	if fn == nil {
 		t.fail(x, "call of %s (only functions and methods of the translated package, builtins and conversions)", nodeDesc(ast.Unparen(x.Fun)))
@@ -688,6 +696,7 @@ func (c *fctx) call(x *ast.CallExpr, en *env, k func([]string) string) string {
 		for _, g := range t.ordered20(fi.gwrites) {
 			parts = append(parts, c.globalName20(g, en, x))
 		}
+		parts = append(parts, c.outArgs15(fi, x, en)...) // [ext:T15] the slices written in place come back
 		if len(rs) > 0 {
 			parts = append(parts, tuple(rs))
 		}
